@@ -13,9 +13,34 @@ EXHAUSTIVE = {'quick': True, 'thorough': True}
 ASSUMPTIONS = ['model of the parser stack validated only by this correspondence',
                'token boundaries of the base document are computed with the real tokenizer under the default state']
 PARTIAL = ['clause "a well-formed document to which a single unmatched delimiter has been added is always rejected" '
-           '(DESIGN C05_fault_rejected) has no Coq theorem: it is covered only by the correspondence and the oracle on every '
-           'generated fault case; proved in Coq (Properties/C05.v): C05_no_other_exception(_run, _any_fuel), '
-           'C05_result_shape, C05_errors_located(_top), C05_error_line_col',
+           '(DESIGN C05_fault_rejected) is proved in Coq only for documents of the CORE grammar of C02 (Doc/DocGrammar.v: text, '
+           'groups, macros with mandatory braced arguments, $ / \\( / \\[ / $$ formulas, comments, paragraph breaks; all such '
+           'documents, all contexts) with the token inserted at an item boundary of an arbitrarily nested body, for these '
+           'fault kinds and positions: C05_fault_closing_partial / C05_fault_closing_any_suffix_partial (a } in the top-level '
+           'or a formula body, a \\) or \\] anywhere but in a formula of the same kind, an \\end{x} anywhere, at any '
+           'nesting depth: error of the matching raise site located AT the token, whatever follows; side condition '
+           'stray_wf: the math token is not $ / $$ (k <> MDollar, k <> MDollars) - necessary, a $ / $$ that is not the expected '
+           'closing delimiter opens a formula: C05_dollars_are_not_closing_tokens); '
+           'C05_fault_closing_brace_in_groups_partial (a } inserted in a chain of directly nested groups / last macro '
+           'arguments standing in the top-level or a formula body: rejected at the closing brace of the outermost construct '
+           'of the chain); C05_fault_opening_partial (a {, \\begin{x} without arguments, and - in front of items that are '
+           'also a well-formed formula body - a $, \\(, \\[, $$ at top level: "closing delimiter not found" located right after '
+           'the token, raised at the end of input); C05_fault_opening_nested_partial / C05_fault_opening_any_suffix_partial '
+           '(the same opening delimiters in a nested body whose closing delimiter is not also the new construct\'s: rejected '
+           'AT that closing delimiter); C05_fault_closing_math_same_partial (a \\) / \\] in a formula of the same kind - side '
+           'condition k <> MDollar, k <> MDollars: for $ / $$ the outcome is the one of the next theorem - whose '
+           'remaining body is also well formed outside math mode: the formula\'s own closing delimiter is rejected); '
+           'C05_fault_dollar_in_dollars(_nested)_partial (a $ in a $ $ formula or a $$ in a $$ $$ formula, under the analogous '
+           'side conditions); '
+           'C05_fault_opening_brace_in_groups(_math)_partial (a { in a chain of nested groups at top level / in a \\( \\) or '
+           '\\[ \\] formula). NOT proved (correspondence + oracle on every generated fault case only): } inserted '
+           'in a macro argument that is not the last one or changes the math mode, { inserted in a macro argument or in a '
+           'group chain inside a $ $ / $$ $$ formula or macro argument, opening delimiters inserted in a $ $ / $$ $$ formula, every case '
+           'where a side condition of these theorems fails (remaining items that contain a formula and would be read in the '
+           'other math mode, $ directly before $, environments with arguments), insertion points inside an item '
+           '(between the tokens of a macro call, inside whitespace), documents outside the core grammar (environments, '
+           'optional / star arguments, specials, verbatim). Proved in Coq for every string: '
+           'C05_no_other_exception(_run, _any_fuel), C05_result_shape, C05_errors_located(_top), C05_error_line_col',
            'C05_no_other_exception allows OutOfFuel as an outcome of the model: termination is a theorem of C06, not of C05',
            'the lineno/colno annotation of _ParsingContext.__exit__ is not part of the parser model (errors carry only pe_pos): '
            'C05_error_line_col is about annotate = the C20 model applied to pe_pos; the real annotation is checked by the oracle']
